@@ -110,14 +110,14 @@ pub fn run(args: &Args) {
     let oracles = SimOracles { outcomes: true, state: true, effects: false, monotone: true };
     let plans: Vec<(&str, UniverseOpts, usize, bool, bool)> = match args.tier {
         Tier::Quick => vec![
-            ("n<=4: 2 transactions (split adds) + action, all interleavings", uni(2, 4), 2, true, true),
-            ("n=5: 2 transactions + action, all interleavings", uni(5, 5), 2, true, false),
-            ("n<=4: 3 transactions, all interleavings", uni(3, 4), 3, false, false),
-        ],
-        Tier::Thorough => vec![
             ("n<=5: 2 transactions (split adds) + action, all interleavings", uni(2, 5), 2, true, true),
             ("n<=5: 3 transactions (split adds), all interleavings", uni(3, 5), 3, false, true),
             ("n<=4: 3 transactions + action, all interleavings", uni(3, 4), 3, true, false),
+        ],
+        Tier::Thorough => vec![
+            ("n<=6: 2 transactions (split adds) + action, all interleavings", uni(2, 6), 2, true, true),
+            ("n<=5: 3 transactions (split adds) + action, all interleavings", uni(3, 5), 3, true, true),
+            ("n=6: 3 transactions, all interleavings", uni(6, 6), 3, false, false),
         ],
     };
     let mut families = Vec::new();
